@@ -18,6 +18,9 @@ RULE = ("one evaluation = one scenario on a real StdScheduler (public API, a Job
         "Plus stand-alone scenarios: the call under test overlaps Start / Stop;Start (16), and a SimpleTrigger(math.MaxInt64) job ('never') scheduled before / after a "
         "5 ms job (4): the 5 ms job must start, 'never' must not run, and the loop must make fewer than 5000 Pop calls in 300 ms (a fire time that wrapped around "
         "to the distant past stays at the head for ever: the loop spins and starves every other job). "
+        "Plus (qh wakeup3) restarts that overlap the previous run: blocking execution with a 120..300 ms job that ignores its context executing across Stop;Start / cancel;Start "
+        "(the call under test is made 100 ms after that job has returned), and back-to-back Stop;Start on an idle scheduler, x the new loop parked on {empty queue, 1 h head, paused head} "
+        "x {ScheduleJob, Replace, ResumeJob} due in 20 ms: Execute must start within 2.3 s of max(API return, fire time), no other API call in between (30 scenarios per round). "
         "No exact differential run against the Lean model (interleavings are not replayable): the theorems cover every interleaving of the model, the tie is the "
         "regenerated facts (channel capacity, non-blocking Reset, Reset after the successful mutation under queueLocker in every mutator, loop order) plus this matrix")
 
@@ -32,6 +35,8 @@ def run(ctx):
     if ctx.thorough:
         for k, par in enumerate([4, 12, 32], 1):
             results.append(generic.engine_run(ctx, "wakeup", ["--seed", str(ctx.seed * 1000 + k), "--n", "1008", "--par", str(par)], "extra%d" % k, timeout=900))
+    # restart that overlaps the previous run (harness/cmd/qh/wakeup3.go): 30 scenarios per round
+    results.append(generic.engine_run(ctx, "wakeup3", ["--seed", str(ctx.seed), "--n", "1" if not ctx.thorough else "6"], "restart", timeout=600))
     bad = generic.proof_cov(ctx, extra_trusted=[
         "Go channel semantics: a send on a channel with a free buffer slot stores the token, `select` with `default` never blocks, a receive in `select` takes a "
         "stored token; an unbuffered send succeeds only as a rendezvous with a blocked receiver (the model's `send`)",
